@@ -729,6 +729,42 @@ bool dispatch_api(State& st, const std::string& op, const json& a, json& ret)
         auto d = eng::load_database(a.at("dir").get<std::string>(), loaded);
         ret["loaded_schema"] = eng::to_string(loaded);
         ret["version_name"] = d.version_name();
+        if (a.value("lookups", false))
+        {
+            // a read-only session that actually uses the library: listings and every kind of lookup, then the handle goes
+            long long n = 0;
+            (void)d.uuid();
+            try
+            {
+                d.verify();
+            }
+            catch (const std::exception&)
+            {
+                // verify() may reject the library (it does when planner statistics are stored); still only an observation
+            }
+            long long limit = a.value("lookups_limit", 1000000LL), seen = 0;
+            for (auto& c : d.crates())
+            {
+                if (++seen > limit) break;
+                auto nm = c.name();
+                n += (long long)c.children().size() + (long long)c.tracks().size() + (long long)c.descendants().size();
+                if (d.root_crate_by_name(nm)) ++n;
+                n += (long long)d.crates_by_name(nm).size();
+                if (auto p = c.parent())
+                    if (p->sub_crate_by_name(nm)) ++n;
+                if (d.crate_by_id(c.id())) ++n;
+            }
+            seen = 0;
+            for (auto& t : d.tracks())
+            {
+                if (++seen > limit) break;
+                n += (long long)d.tracks_by_relative_path(t.relative_path()).size();
+                if (d.track_by_id(t.id())) ++n;
+                (void)t.snapshot();
+            }
+            n += (long long)d.root_crates().size();
+            ret["lookups"] = n;
+        }
         return true;
     }
     if (op == "release_all")
